@@ -4,11 +4,15 @@
 use crate::bits::BitSet;
 use crate::ops::Op;
 use crate::world::*;
+use std::collections::HashSet;
 use std::rc::Rc;
+use yrs::updates::decoder::Decode;
+use yrs::updates::encoder::Encode;
+use yrs::{Doc, IdSet, ReadTxn, StateVector, Transact, Update};
 
 pub enum TxnKind {
     Local,
-    Remote(Rc<Payload>, Enc),
+    Remote(Msg, Enc),
     Gc,
     Undo,
 }
@@ -17,43 +21,110 @@ pub enum TxnKind {
 pub struct Pre {
     pub dump: Option<String>,
     pub sv: Option<Vec<(u64, u32)>>,
+    pub iset: Option<IdSet>,
+    pub dset: Option<IdSet>,
+    pub missing: bool,
+}
+
+pub struct LogRec {
+    pub uid: usize,
+    /// the replica had a stash when the record was written
+    pub missing: bool,
+    pub v1: Vec<u8>,
+    pub dump_after: String,
+    pub lo: BitSet,
+    pub hi: BitSet,
+}
+
+/// per-node shadow state of the armed oracles
+#[derive(Default)]
+pub struct Shadow {
+    /// C07: passive followers fed by the v1 stream, the v2 stream, and both alternately
+    pub followers: Vec<Doc>,
+    pub alt: bool,
+    /// C07: durable log of emitted v1 payloads
+    pub durable: Vec<LogRec>,
+    pub session: u32,
+    /// C15: twin with the opposite GC setting fed the same payload sequence
+    pub twin: Option<Doc>,
+    /// C06: messages already applied by this node
+    pub delivered: HashSet<MsgId>,
 }
 
 pub struct Monitors {
     pub armed: Vec<String>,
     /// number of `format` operations issued (bounds the quiescence rounds, DESIGN.md §2.2)
     pub format_ops: u32,
+    pub shadow: Vec<Shadow>,
+    /// C08: every payload that ever existed in the run, with its ledger coverage
+    pub pool: Vec<(Rc<Payload>, BitSet, BitSet)>,
+    pub sp: crate::special::SpecialState,
 }
 
 impl Monitors {
-    pub fn new(cfg: &RunCfg, _nodes: &[Node]) -> Monitors {
-        let armed: Vec<String> = match cfg.profile.as_str() {
-            "sec" => vec!["sec"],
-            "gap" => vec!["gap"],
-            other => vec![other],
+    pub fn new(cfg: &RunCfg, nodes: &[Node]) -> Monitors {
+        let armed: Vec<String> = vec![cfg.profile.clone()];
+        let mut shadow: Vec<Shadow> = Vec::new();
+        for (i, n) in nodes.iter().enumerate() {
+            let mut s = Shadow::default();
+            if cfg.profile == "log" {
+                // follower GC drawn independently of the leader (deterministically from the ids)
+                for k in 0..3u64 {
+                    let gc = (n.cfg.client_id + k + i as u64) % 2 == 0;
+                    s.followers.push(passive_doc(gc, n.cfg.utf16));
+                }
+            }
+            if cfg.profile == "gc" {
+                s.twin = Some(make_doc(&NodeCfg {
+                    client_id: n.cfg.client_id + 100_000,
+                    skip_gc: !n.cfg.skip_gc,
+                    utf16: n.cfg.utf16,
+                    // the twin never cleans up by itself: it is handed the node's own clean-up
+                    // deletions (they travel in the node's update events)
+                    cleanup_fmt: false,
+                }));
+            }
+            shadow.push(s);
         }
-        .into_iter()
-        .map(|s| s.to_string())
-        .collect();
         Monitors {
             armed,
             format_ops: 0,
+            shadow,
+            pool: Vec::new(),
+            sp: crate::special::SpecialState::new(cfg, nodes),
         }
     }
 }
 
-pub fn pre_txn(_w: &mut World, _n: usize) -> Pre {
-    Pre::default()
+pub fn integrated_ids(doc: &Doc) -> IdSet {
+    let bytes = doc.transact().encode_diff_v1(&StateVector::default());
+    match Update::decode_v1(&bytes) {
+        Ok(u) => u.insertions(true),
+        Err(_) => IdSet::default(),
+    }
 }
 
-pub fn post_txn(
-    w: &mut World,
-    n: usize,
-    _kind: TxnKind,
-    _uid: Option<usize>,
-    _pre: Pre,
-    ops: &[Op],
-) -> VResult {
+pub fn pre_txn(w: &mut World, n: usize) -> Pre {
+    let mut p = Pre::default();
+    let prof = w.cfg.profile.as_str();
+    match prof {
+        "svsync" | "gc" | "snap" => {
+            p.dump = Some(doc_dump(&w.nodes[n].doc));
+            p.sv = Some(doc_sv(&w.nodes[n].doc));
+        }
+        "log" => {
+            p.dump = Some(doc_dump(&w.nodes[n].doc));
+            p.iset = Some(integrated_ids(&w.nodes[n].doc));
+            p.dset = Some(w.nodes[n].doc.transact().snapshot().delete_set);
+        }
+        _ => {}
+    }
+    p.missing = has_missing(&w.nodes[n].doc);
+    crate::special::pre_txn(w, n, &mut p);
+    p
+}
+
+pub fn post_txn(w: &mut World, n: usize, kind: TxnKind, uid: Option<usize>, pre: Pre, ops: &[Op]) -> VResult {
     for op in ops {
         if matches!(op, Op::TFormat { .. }) {
             w.mon.format_ops += 1;
@@ -66,34 +137,56 @@ pub fn post_txn(
     if missing {
         w.stats.pending_seen += 1;
     }
-    let sec = w.armed("sec");
-    let gap = w.armed("gap");
-    if (sec || gap) && w.exact(n) {
-        let cov = w.nodes[n].lo.clone();
-        if w.closed(&cov) {
-            w.stats.closed_checks += 1;
-            w.stats.oracle_evals += 1;
-            if gap {
-                check_gap_closed(w, n, &cov, missing)?;
-            }
-            if sec || gap {
-                let r = w.reference(&cov)?;
-                let d = doc_dump(&w.nodes[n].doc);
-                if d != r.dump {
-                    let id = if sec { "sec.reference" } else { "gap.content" };
-                    return Err(viol(
-                        id,
-                        format!(
-                            "node {} holds the causally closed update set {:?} but differs from the replica that applied the same set in emission order\n  node: {}\n  ref : {}",
-                            n,
-                            cov.to_vec(),
-                            d,
-                            r.dump
-                        ),
-                    ));
-                }
-            }
+    if let Some(u) = uid {
+        if w.cfg.profile == "relay" {
+            let p = w.uids[u].payload.clone();
+            let mut b = BitSet::new();
+            b.insert(u);
+            w.mon.pool.push((p, b.clone(), b));
         }
+    }
+    let prof = w.cfg.profile.clone();
+    match prof.as_str() {
+        "sec" | "gap" | "relay" => check_closed(w, n, missing)?,
+        "reads" => check_reads(w, n)?,
+        "svsync" => check_svsync(w, n, &kind, &pre, missing)?,
+        "log" => check_log(w, n, &kind, uid, &pre)?,
+        "gc" => check_gc(w, n, &kind, uid, &pre)?,
+        _ => {}
+    }
+    crate::special::post_txn(w, n, &kind, uid, &pre, ops)?;
+    // SV bookkeeping for the monotonicity monitor
+    w.nodes[n].last_sv = doc_sv(&w.nodes[n].doc);
+    Ok(())
+}
+
+pub fn check_closed(w: &mut World, n: usize, missing: bool) -> VResult {
+    let prof = w.cfg.profile.clone();
+    if !w.exact(n) {
+        return Ok(());
+    }
+    let cov = w.nodes[n].lo.clone();
+    if !w.closed(&cov) {
+        return Ok(());
+    }
+    w.stats.closed_checks += 1;
+    w.stats.oracle_evals += 1;
+    if prof == "gap" {
+        check_gap_closed(w, n, &cov, missing)?;
+    }
+    let r = w.reference(&cov)?;
+    let d = doc_dump(&w.nodes[n].doc);
+    if d != r.dump {
+        return Err(viol(
+            &format!("{}.reference", prof),
+            format!(
+                "node {} holds the causally closed update set {:?} but differs from the replica that applied the same set in emission order\n  node: {}\n  ref : {}",
+                n,
+                cov.to_vec(),
+                d,
+                r.dump
+            ),
+        ));
     }
     Ok(())
 }
@@ -129,37 +222,245 @@ fn check_gap_closed(w: &mut World, n: usize, cov: &BitSet, missing: bool) -> VRe
     Ok(())
 }
 
-pub fn on_sync_answer(
-    _w: &mut World,
-    _a: usize,
-    _b: usize,
-    _sv: &yrs::StateVector,
-    _full: bool,
-) -> VResult {
+fn check_reads(w: &mut World, n: usize) -> VResult {
+    let doc = w.nodes[n].doc.clone();
+    let txn = doc.transact();
+    w.stats.oracle_evals += 1;
+    match crate::reads::check_reads(&txn, doc.offset_kind()) {
+        Ok(k) => {
+            w.stats.closed_checks += k as u64;
+            Ok(())
+        }
+        Err(e) => Err(viol("reads.disagree", format!("node {}: {}", n, e))),
+    }
+}
+
+fn check_svsync(w: &mut World, n: usize, kind: &TxnKind, pre: &Pre, missing: bool) -> VResult {
+    w.stats.oracle_evals += 1;
+    let sv = doc_sv(&w.nodes[n].doc);
+    if !sv_ge(&sv, &w.nodes[n].last_sv) {
+        return Err(viol(
+            "svsync.monotone",
+            format!("node {}: state vector went from {:?} to {:?}", n, w.nodes[n].last_sv, sv),
+        ));
+    }
+    if let TxnKind::Remote(msg, _) = kind {
+        let dup = !w.mon.shadow[n].delivered.insert(msg.id);
+        if dup {
+            // the statement claims this for the state vector only: re-applying a payload whose
+            // blocks are still stashed may legitimately integrate them (visible change)
+            let d = doc_dump(&w.nodes[n].doc);
+            if Some(&sv) != pre.sv.as_ref() {
+                return Err(viol(
+                    "svsync.dup",
+                    format!(
+                        "node {}: re-applying an already applied payload changed the replica\n  before: {} {:?}\n  after : {} {:?}",
+                        n,
+                        pre.dump.clone().unwrap_or_default(),
+                        pre.sv,
+                        d,
+                        sv
+                    ),
+                ));
+            }
+        }
+        if let Some(sva) = &msg.sv_at_encode {
+            if !sv_ge(&sv, sva) {
+                // known finding F19 is identified by the receiver holding a stash afterwards
+                return Err(viol(
+                    if missing { "svsync.dominance-stashed" } else { "svsync.dominance" },
+                    format!(
+                        "node {} applied what node {} encoded against its state vector, but its state vector {:?} does not dominate the sender's {:?}",
+                        n, msg.from, sv, sva
+                    ),
+                ));
+            }
+        }
+    }
+    // content: same set => same state (sync payloads included)
+    if w.exact(n) {
+        let cov = w.nodes[n].lo.clone();
+        if w.closed(&cov) {
+            w.stats.closed_checks += 1;
+            if missing {
+                return Err(viol(
+                    "svsync.pending",
+                    format!("node {} holds closed set {:?} after sync but reports missing updates", n, cov.to_vec()),
+                ));
+            }
+            let r = w.reference(&cov)?;
+            let d = doc_dump(&w.nodes[n].doc);
+            if d != r.dump {
+                return Err(viol(
+                    "svsync.content",
+                    format!(
+                        "node {} holds closed set {:?} (by updates and sync answers) but differs from the reference\n  node: {}\n  ref : {}",
+                        n,
+                        cov.to_vec(),
+                        d,
+                        r.dump
+                    ),
+                ));
+            }
+        }
+    }
+    Ok(())
+}
+
+fn check_log(w: &mut World, n: usize, _kind: &TxnKind, uid: Option<usize>, pre: &Pre) -> VResult {
+    w.stats.oracle_evals += 1;
+    let doc = w.nodes[n].doc.clone();
+    let dump = doc_dump(&doc);
+    let iset = integrated_ids(&doc);
+    let dset = doc.transact().snapshot().delete_set;
+    let changed = Some(&dump) != pre.dump.as_ref() || Some(&iset) != pre.iset.as_ref() || Some(&dset) != pre.dset.as_ref();
+    match (changed, uid) {
+        (true, None) => {
+            return Err(viol(
+                "log.count",
+                format!(
+                    "a transaction on node {} changed the document (content, integrated ids or delete set) but no update event was emitted\n  before: {}\n  after : {}",
+                    n,
+                    pre.dump.clone().unwrap_or_default(),
+                    dump
+                ),
+            ))
+        }
+        (false, Some(_)) => {
+            return Err(viol(
+                "log.count",
+                format!(
+                    "a transaction on node {} changed nothing (content, integrated ids, delete set all equal) but emitted an update event",
+                    n
+                ),
+            ))
+        }
+        _ => {}
+    }
+    if let Some(u) = uid {
+        let p = w.uids[u].payload.clone();
+        let alt = w.mon.shadow[n].alt;
+        w.mon.shadow[n].alt = !alt;
+        let encs = [Enc::V1, Enc::V2, if alt { Enc::V1 } else { Enc::V2 }];
+        for (k, enc) in encs.iter().enumerate() {
+            let f = w.mon.shadow[n].followers[k].clone();
+            if let Err(e) = apply_payload(&f, &p, *enc) {
+                return Err(viol(
+                    "log.follower",
+                    format!("follower {} of node {} cannot apply emitted update u{} ({:?}): {}", k, n, u, enc, e),
+                ));
+            }
+        }
+        let lo = w.nodes[n].lo.clone();
+        let hi = w.nodes[n].hi.clone();
+        w.mon.shadow[n].durable.push(LogRec {
+            uid: u,
+            missing: has_missing(&doc),
+            v1: p.v1.clone(),
+            dump_after: dump.clone(),
+            lo,
+            hi,
+        });
+    }
+    for k in 0..3 {
+        let f = w.mon.shadow[n].followers[k].clone();
+        let fd = doc_dump(&f);
+        if fd != dump {
+            return Err(viol(
+                "log.follower",
+                format!(
+                    "passive follower {} (fed only by the {} update events of node {}) differs from it after this transaction\n  leader  : {}\n  follower: {}",
+                    k,
+                    ["v1", "v2", "alternating v1/v2"][k],
+                    n,
+                    dump,
+                    fd
+                ),
+            ));
+        }
+    }
+    Ok(())
+}
+
+fn check_gc(w: &mut World, n: usize, kind: &TxnKind, uid: Option<usize>, pre: &Pre) -> VResult {
+    w.stats.oracle_evals += 1;
+    let twin = w.mon.shadow[n].twin.clone().unwrap();
+    match kind {
+        TxnKind::Local | TxnKind::Undo => {
+            if let Some(u) = uid {
+                let p = w.uids[u].payload.clone();
+                if let Err(e) = apply_payload(&twin, &p, Enc::V1) {
+                    return Err(viol("gc.twin", format!("twin of node {} cannot apply its update: {}", n, e)));
+                }
+            }
+        }
+        TxnKind::Remote(msg, enc) => {
+            if let Err(e) = apply_payload(&twin, &msg.payload, *enc) {
+                return Err(viol("gc.twin", format!("twin of node {} cannot apply a payload the node applied: {}", n, e)));
+            }
+            if let Some(u) = uid {
+                let p = w.uids[u].payload.clone();
+                if let Err(e) = apply_payload(&twin, &p, Enc::V1) {
+                    return Err(viol("gc.twin", format!("twin of node {} cannot apply the node's own update event: {}", n, e)));
+                }
+            }
+        }
+        TxnKind::Gc => {
+            let d = doc_dump(&w.nodes[n].doc);
+            if Some(&d) != pre.dump.as_ref() {
+                return Err(viol(
+                    "gc.force",
+                    format!(
+                        "forced GC changed visible content of node {}\n  before: {}\n  after : {}",
+                        n,
+                        pre.dump.clone().unwrap_or_default(),
+                        d
+                    ),
+                ));
+            }
+        }
+    }
+    if !has_missing(&w.nodes[n].doc) && !has_missing(&twin) {
+        let a = doc_dump(&w.nodes[n].doc);
+        let b = doc_dump(&twin);
+        if a != b {
+            return Err(viol(
+                "gc.twin",
+                format!(
+                    "node {} (skip_gc={}) and its twin with the opposite GC setting received the same updates but differ\n  node: {}\n  twin: {}",
+                    n, w.nodes[n].cfg.skip_gc, a, b
+                ),
+            ));
+        }
+    }
+    Ok(())
+}
+
+pub fn on_sync_answer(_w: &mut World, _a: usize, _b: usize, _sv: &StateVector, _full: bool) -> VResult {
     Ok(())
 }
 
 /// weight of profile-specific events in the generator policy
 pub fn special_weight(w: &World) -> u32 {
-    let _ = w;
-    0
+    w.cfg.w_special
 }
 
-pub fn draw_special(_w: &mut World) -> Option<Ev> {
-    None
+pub fn draw_special(w: &mut World) -> Option<Ev> {
+    crate::special::draw(w)
 }
 
 /// origin of a generated local transaction
-pub fn draw_origin(_w: &mut World, _n: usize) -> Option<String> {
-    None
+pub fn draw_origin(w: &mut World, n: usize) -> Option<String> {
+    crate::special::draw_origin(w, n)
 }
 
-pub fn exec_special(_w: &mut World, _n: usize, _k: &str, _a: &[u64], _s: &[String]) -> VResult {
-    Ok(())
+pub fn exec_special(w: &mut World, n: usize, k: &str, a: &[u64], s: &[String]) -> VResult {
+    w.stats.special += 1;
+    crate::special::exec(w, n, k, a, s)
 }
 
 pub fn at_quiescence(w: &mut World) -> VResult {
-    let full = BitSet::full(w.uids.len());
+    let full = w.universe();
     for (i, nd) in w.nodes.iter().enumerate() {
         if nd.lo != full {
             return Err(viol(
@@ -168,60 +469,51 @@ pub fn at_quiescence(w: &mut World) -> VResult {
             ));
         }
     }
-    let sec = w.armed("sec");
-    let gap = w.armed("gap");
+    let prof = w.cfg.profile.clone();
     w.stats.oracle_evals += 1;
     for i in 0..w.nodes.len() {
         if has_missing(&w.nodes[i].doc) {
-            let id = if gap { "gap.pending-at-quiescence" } else { "sec.pending-at-quiescence" };
-            if sec || gap {
-                return Err(viol(
-                    id,
-                    format!(
-                        "node {} has received every update (directly and by full-state sync) but still reports missing updates",
-                        i
-                    ),
-                ));
-            }
-        }
-    }
-    if sec || gap {
-        let dumps: Vec<String> = w.nodes.iter().map(|x| doc_dump(&x.doc)).collect();
-        for i in 1..dumps.len() {
-            if dumps[i] != dumps[0] {
-                return Err(viol(
-                    if sec { "sec.diverged" } else { "gap.diverged" },
-                    format!(
-                        "replicas 0 and {} received the same set of updates but differ\n  0: {}\n  {}: {}",
-                        i, dumps[0], i, dumps[i]
-                    ),
-                ));
-            }
-        }
-        let r = w.reference(&full)?;
-        if dumps[0] != r.dump {
             return Err(viol(
-                if sec { "sec.reference" } else { "gap.content" },
+                &format!("{}.pending-at-quiescence", prof),
                 format!(
-                    "all replicas agree but differ from the emission-order reference\n  node: {}\n  ref : {}",
-                    dumps[0], r.dump
+                    "node {} has received every update (directly and by full-state sync) but still reports missing updates",
+                    i
                 ),
             ));
         }
-        let svs: Vec<Vec<(u64, u32)>> = w.nodes.iter().map(|x| doc_sv(&x.doc)).collect();
-        for i in 1..svs.len() {
-            if svs[i] != svs[0] {
-                return Err(viol(
-                    if sec { "sec.sv" } else { "gap.sv" },
-                    format!(
-                        "state vectors differ at quiescence: node 0 {:?}, node {} {:?}",
-                        svs[0], i, svs[i]
-                    ),
-                ));
-            }
+    }
+    let dumps: Vec<String> = w.nodes.iter().map(|x| doc_dump(&x.doc)).collect();
+    for i in 1..dumps.len() {
+        if dumps[i] != dumps[0] {
+            return Err(viol(
+                &format!("{}.diverged", prof),
+                format!(
+                    "replicas 0 and {} received the same set of updates but differ\n  0: {}\n  {}: {}",
+                    i, dumps[0], i, dumps[i]
+                ),
+            ));
         }
     }
-    Ok(())
+    let r = w.reference(&full)?;
+    if dumps[0] != r.dump {
+        return Err(viol(
+            &format!("{}.reference", prof),
+            format!(
+                "all replicas agree but differ from the emission-order reference\n  node: {}\n  ref : {}",
+                dumps[0], r.dump
+            ),
+        ));
+    }
+    let svs: Vec<Vec<(u64, u32)>> = w.nodes.iter().map(|x| doc_sv(&x.doc)).collect();
+    for i in 1..svs.len() {
+        if svs[i] != svs[0] {
+            return Err(viol(
+                &format!("{}.sv", prof),
+                format!("state vectors differ at quiescence: node 0 {:?}, node {} {:?}", svs[0], i, svs[i]),
+            ));
+        }
+    }
+    crate::special::at_quiescence(w)
 }
 
 // ---- special cell kinds (own worlds) — filled in by their modules ---------------------------------
@@ -256,4 +548,12 @@ pub fn assumptions(_profile: &str) -> Vec<String> {
         "the reference replica runs the same integration code under the one schedule the unit tests exercise (emission order)".into(),
         "histories are short (<=120 events) and values small".into(),
     ]
+}
+
+#[allow(dead_code)]
+pub fn encode_both(u: &Update) -> Payload {
+    Payload {
+        v1: u.encode_v1(),
+        v2: u.encode_v2(),
+    }
 }
